@@ -124,7 +124,7 @@ const (
 // Address tokens of direction A.
 var zzG01Addrs = map[string]string{
 	"a1": "192.168.10.5", "a2": "192.168.10.99", "a3": "10.0.0.7", "a4": "8.8.4.4",
-	"in": "192.168.10.77", "alt": "127.0.7.9", "pub": "203.0.113.9",
+	"in": "192.168.10.77", "alt": "127.0.7.9", "pub": "93.184.216.34",
 }
 
 var zzG01Qtypes = map[string]uint16{
@@ -792,12 +792,12 @@ func zzG01Endpoint(rr *dns.SVCB) (s string) {
 // ---------------------------------------------------------------- direction A
 
 type zzG01Vec struct {
-	Kind string        `json:"kind"`
-	Reqs []zzG01Req    `json:"reqs"`
-	Cfg  zzG01Cfg      `json:"cfg"`
-	Tab  [][]zzG01Out  `json:"tab"`
-	Set  string        `json:"set"`
-	Idx  []int         `json:"idx"`
+	Kind string       `json:"kind"`
+	Reqs []zzG01Req   `json:"reqs"`
+	Cfg  zzG01Cfg     `json:"cfg"`
+	Tab  [][]zzG01Out `json:"tab"`
+	Set  string       `json:"set"`
+	Idx  []int        `json:"idx"`
 }
 
 func zzG01GroupKey(cfg *zzG01Cfg) (k string) {
@@ -956,7 +956,7 @@ func TestZZVerifG01Replay(t *testing.T) {
 				}
 
 				fresh.close()
-				rec := map[string]any{"cfg": cfg, "req": req, "want": want}
+				rec := map[string]any{"cfg": cfg, "req": req, "want": want, "abstract_want": v.Tab[k]}
 				switch {
 				case err == nil && !zzG01Admissible(want, got3):
 					bad++
@@ -982,4 +982,284 @@ func TestZZVerifG01Replay(t *testing.T) {
 
 	w.put(map[string]any{"kind": "summary", "n": n, "bad": bad, "flaky": flaky, "servers": len(lives),
 		"reconfigurations": prep, "passes": passes, "via_udp": viaUDP, "cfgs": len(cfgs)})
+}
+
+// ---------------------------------------------------------------- direction B
+
+// zzG01RFC6303 is the harness's own list of the locally served networks,
+// written from RFC 6303 (sections 4.1 - 4.6) and independent of the code.
+var zzG01RFC6303 = []string{
+	"10.0.0.0/8", "172.16.0.0/12", "192.168.0.0/16", "0.0.0.0/8", "127.0.0.0/8", "169.254.0.0/16",
+	"192.0.2.0/24", "198.51.100.0/24", "203.0.113.0/24", "255.255.255.255/32",
+	"::/127", "fd00::/8", "fe80::/10", "2001:db8::/32",
+}
+
+// zzG01InNets is the harness's own private-network test.
+func zzG01InNets(nets string, a netip.Addr) (ok bool) {
+	txt := zzG01NetSets[nets]
+	if txt == nil {
+		txt = zzG01RFC6303
+	}
+
+	for _, t := range txt {
+		if netip.MustParsePrefix(t).Contains(a) {
+			return true
+		}
+	}
+
+	return false
+}
+
+// zzG01Reverse renders the reverse name of an address, written from RFC 1035
+// section 3.5 and RFC 3596 section 2.5.
+func zzG01Reverse(a netip.Addr) (labels []string) {
+	if a.Is4() {
+		b := a.As4()
+
+		return []string{fmt.Sprint(b[3]), fmt.Sprint(b[2]), fmt.Sprint(b[1]), fmt.Sprint(b[0]), "in-addr", "arpa"}
+	}
+
+	b := a.As16()
+	for i := 15; i >= 0; i-- {
+		labels = append(labels, fmt.Sprintf("%x", b[i]&0xf), fmt.Sprintf("%x", b[i]>>4))
+	}
+
+	return append(labels, "ip6", "arpa")
+}
+
+var (
+	zzG01PrivPool = []string{
+		"10.0.0.7", "10.200.3.4", "172.16.0.1", "172.31.255.254", "192.168.10.5", "192.168.10.99", "192.168.1.1",
+		"127.0.0.1", "127.0.7.9", "169.254.10.10",
+	}
+	zzG01PrivPool6 = []string{"fd00::5", "fdab:cdef::1234", "fe80::1"}
+	zzG01PubPool   = []string{
+		"8.8.4.4", "1.1.1.1", "93.184.216.34", "172.32.0.1", "172.15.255.255", "192.169.0.1", "11.0.0.1",
+		"100.64.0.5", "169.253.1.1",
+	}
+	zzG01PubPool6 = []string{"2606:4700::1111", "fc00::1", "2001:db9::1"}
+	zzG01Hosts    = []string{"printer", "nas", "tv", "my-phone", "host-1", "x", "ghost", "phantom"}
+	zzG01Suffixes = [][]string{{"lan"}, {"home", "arpa"}, {"internal"}, {"corp", "example", "com"}, {"local-net"}}
+)
+
+func zzG01Pick(rng *rand.Rand, ss []string) (s string) { return ss[rng.Intn(len(ss))] }
+
+// zzG01RandCfg draws the live part of a configuration.
+func zzG01RandCfg(rng *rand.Rand, base *zzG01Cfg) (cfg *zzG01Cfg, leases map[string]netip.Addr) {
+	c := *base
+	cfg = &c
+	cfg.AAAAOff, cfg.RefuseAny, cfg.DDR = rng.Intn(3) == 0, rng.Intn(2) == 0, rng.Intn(3) != 0
+	cfg.DHCP, cfg.PrivPTR = rng.Intn(4) != 0, rng.Intn(2) == 0
+	cfg.TLS = zzG01TLS{}
+	if rng.Intn(4) != 0 {
+		cfg.TLS.On, cfg.TLS.CertIP = true, rng.Intn(2) == 0
+		if rng.Intn(3) != 0 {
+			cfg.TLS.DoH = zzG01Pick(rng, []string{"443", "8443", "4443"})
+		}
+		if rng.Intn(3) != 0 {
+			cfg.TLS.DoT = zzG01Pick(rng, []string{"853", "8853"})
+		}
+		if rng.Intn(3) != 0 {
+			cfg.TLS.DoQ = zzG01Pick(rng, []string{"853", "784", "8853"})
+		}
+	}
+
+	leases = map[string]netip.Addr{}
+	cfg.Leases = []zzG01Lease{}
+	used := map[string]bool{}
+	for i, n := 0, rng.Intn(6); i < n; i++ {
+		h := zzG01Pick(rng, zzG01Hosts[:6])
+		a := zzG01Pick(rng, zzG01PrivPool[:7])
+		if rng.Intn(12) == 0 {
+			// A lease outside every private network.
+			a = zzG01Pick(rng, zzG01PubPool[:3])
+		}
+
+		if _, dup := leases[h]; dup || used[a] {
+			continue
+		}
+
+		used[a] = true
+		leases[h] = netip.MustParseAddr(a)
+		cfg.Leases = append(cfg.Leases, zzG01Lease{H: h, A: a})
+	}
+
+	return cfg, leases
+}
+
+// zzG01RandName draws a question name: lower-case labels.
+func zzG01RandName(rng *rand.Rand, cfg *zzG01Cfg) (name []string, rev zzG01Rev) {
+	cat := func(parts ...[]string) (n []string) {
+		for _, p := range parts {
+			n = append(n, p...)
+		}
+
+		return n
+	}
+
+	special := [][]string{{"use-application-dns", "net"}, {"healthcheck", "adguardhome", "test"}, {"_dns", "resolver", "arpa"}}
+	sfx := cfg.Suffix
+	switch rng.Intn(12) {
+	case 0:
+		return special[rng.Intn(3)], rev
+	case 1:
+		s := special[rng.Intn(3)]
+		switch rng.Intn(4) {
+		case 0:
+			return cat([]string{zzG01Pick(rng, []string{"www", "x", "_dns"})}, s), rev
+		case 1:
+			return cat(s, []string{"example", "com"}), rev
+		case 2:
+			return cat([]string{"x" + s[0]}, s[1:]), rev
+		default:
+			return s[1:], rev
+		}
+	case 2, 3, 4:
+		// Host names under the local domain.
+		h := zzG01Pick(rng, zzG01Hosts)
+		switch rng.Intn(8) {
+		case 0:
+			return cat([]string{"a", h}, sfx), rev
+		case 1:
+			return sfx, rev
+		case 2:
+			return cat([]string{h, "x" + sfx[0]}, sfx[1:]), rev
+		case 3:
+			return cat([]string{h}, sfx, []string{"example", "com"}), rev
+		case 4:
+			if len(sfx) > 1 {
+				return cat([]string{h}, sfx[1:]), rev
+			}
+
+			return []string{h + sfx[0]}, rev
+		default:
+			return cat([]string{h}, sfx), rev
+		}
+	case 5:
+		if len(cfg.Blocked) > 0 {
+			b := cfg.Blocked[rng.Intn(len(cfg.Blocked))]
+			if rng.Intn(2) == 0 {
+				return cat([]string{zzG01Pick(rng, []string{"www", "cdn", "a"})}, b), rev
+			}
+
+			return b, rev
+		}
+
+		return []string{"plain", "example"}, rev
+	case 6, 7, 8, 9:
+		// Reverse names.
+		var a netip.Addr
+		switch rng.Intn(7) {
+		case 0, 1:
+			if len(cfg.Leases) > 0 {
+				a = netip.MustParseAddr(cfg.Leases[rng.Intn(len(cfg.Leases))].A)
+
+				break
+			}
+
+			fallthrough
+		case 2:
+			a = netip.MustParseAddr(zzG01Pick(rng, zzG01PrivPool))
+		case 3:
+			a = netip.MustParseAddr(zzG01Pick(rng, zzG01PrivPool6))
+		case 4:
+			a = netip.MustParseAddr(zzG01Pick(rng, zzG01PubPool))
+		case 5:
+			a = netip.MustParseAddr(zzG01Pick(rng, zzG01PubPool6))
+		default:
+			// Zone cuts that lie entirely inside or outside the networks.
+			z := [][2]string{{"10.in-addr.arpa", "10.0.0.0"}, {"168.192.in-addr.arpa", "192.168.0.0"},
+				{"16.172.in-addr.arpa", "172.16.0.0"}, {"8.in-addr.arpa", "8.0.0.0"}, {"1.1.in-addr.arpa", "1.1.0.0"}}[rng.Intn(5)]
+			za := netip.MustParseAddr(z[1])
+
+			return strings.Split(z[0], "."), zzG01Rev{Ok: true, Priv: zzG01InNets(cfg.Nets, za), A: "zone " + z[0]}
+		}
+
+		return zzG01Reverse(a), zzG01Rev{Ok: true, Priv: zzG01InNets(cfg.Nets, a), A: a.String()}
+	default:
+		return [][]string{{"plain", "example"}, {"example", "org"}, {"arpa"}, {"in-addr", "arpa"}, {"net"},
+			{"lan", "example", "org"}, {"www", "plain", "example"}}[rng.Intn(7)], rev
+	}
+}
+
+// TestZZVerifG01Trace is direction B: a seeded random run over a larger
+// universe (other local domains, lease tables, ports, private-network sets,
+// IPv6 clients and reverse names), logged in the vocabulary of
+// TraceDnsFront.tla.
+func TestZZVerifG01Trace(t *testing.T) {
+	w := zzNewWriter(t, "VERIF_OUT")
+	defer w.close()
+
+	rng := rand.New(rand.NewSource(zzSeed()))
+	servers, perServer, perCfg := 12, 12, 30
+	if strings.EqualFold(strings.TrimSpace(zzGetenv("VERIF_TIER")), "thorough") {
+		servers, perServer = 40, 25
+	}
+
+	qts := []string{"A", "A", "A", "AAAA", "AAAA", "ANY", "SVCB", "PTR", "PTR", "PTR", "SOA", "NS", "TXT", "MX"}
+	netNames := []string{"default", "default", "custom", "wide"}
+	for si := 0; si < servers; si++ {
+		base := &zzG01Cfg{Suffix: zzG01Suffixes[rng.Intn(len(zzG01Suffixes))], Nets: netNames[rng.Intn(len(netNames))], Blocked: [][]string{}}
+		cands := [][]string{{"use-application-dns", "net"}, {"healthcheck", "adguardhome", "test"}, {"_dns", "resolver", "arpa"},
+			{"ads", "example"}, {"tracker", "example", "net"}}
+		for _, h := range zzG01Hosts {
+			cands = append(cands, append([]string{h}, base.Suffix...))
+		}
+
+		for _, c := range cands {
+			if rng.Intn(3) == 0 {
+				base.Blocked = append(base.Blocked, c)
+			}
+		}
+
+		live, err := zzG01NewLive(t, base.Suffix, base.Nets, base.Blocked)
+		if err != nil {
+			t.Fatalf("new server: %v", err)
+		}
+
+		live.binds = 1 + rng.Intn(2)
+		for ci := 0; ci < perServer; ci++ {
+			cfg, leases := zzG01RandCfg(rng, base)
+			if err = live.configure(cfg, leases); err != nil {
+				t.Fatalf("configure %+v: %v", cfg, err)
+			}
+
+			for qi := 0; qi < perCfg; qi++ {
+				name, rev := zzG01RandName(rng, cfg)
+				canon := rng.Intn(3) != 0
+				fqdn := zzG01Spell(name, canon, rng)
+				canon = fqdn == strings.ToLower(fqdn)
+				qt := qts[rng.Intn(len(qts))]
+
+				var pool []string
+				switch rng.Intn(4) {
+				case 0:
+					pool = zzG01PubPool
+				case 1:
+					pool = append(append([]string{}, zzG01PrivPool6...), zzG01PubPool6...)
+				default:
+					pool = zzG01PrivPool
+				}
+
+				cli := netip.MustParseAddr(zzG01Pick(rng, pool))
+				got, conc := live.ask(fqdn, zzG01Qtypes[qt], cli, false)
+				if got.C == "ptr" {
+					tail := "." + strings.Join(cfg.Suffix, ".") + "."
+					for i, v := range got.V {
+						if strings.HasSuffix(v, tail) {
+							got.V[i] = strings.TrimSuffix(v, tail)
+						}
+					}
+				}
+
+				w.put(map[string]any{
+					"cfg": cfg,
+					"req": zzG01Req{Name: name, Canon: canon, Qt: qt, Cli: cli.String(), CPriv: zzG01InNets(cfg.Nets, cli), Rev: rev},
+					"out": got, "concrete": conc,
+				})
+			}
+		}
+
+		live.close()
+	}
 }
